@@ -49,6 +49,7 @@ MUTATORS = {
     "C06": [
         ("idiom -> alias (gates)", r"quimb/tensor/(gating|tnag/core|tn1d/core)\.py$", r"^(\s+)(\w+) = (\w+) if inplace else \3\.copy\(\)\s*$", r"\1\2 = \3", r"gate|apply"),
         ("drop transpose", r"quimb/tensor/(gating|tnag/core|tn1d/core)\.py$", r"^(\s+)transpose=transpose,\s*$", None),
+        ("literal bond name", r"quimb/tensor/gating\.py$", r"^(\s+)tnG_spat = TG\.split\(\(\"l0\", \"r0\"\), bond_ind=bix, \*\*compress_opts\)\s*$", r'\1tnG_spat = TG.split(("l0", "r0"), bond_ind="bond", **compress_opts)'),
         ("attach without reindex", r"quimb/tensor/gating\.py$", r"^(\s+)tn\.reindex_\(reindex_map\)\s*$", None),
     ],
     "C07": [
